@@ -212,4 +212,20 @@ def per_char(db, ctx):
     assigned_from_end = any(n.get("k") == "Assign" and local_name(n["l"]) == "min_offset" and "end" in render(n["r"]) for n, _ in walk(sl.hir))
     ctx.ob("replace_slow|skip-inside-previous-match", len(conts) == 1 and assigned_from_end,
            "`if offset < min_offset { continue }` present: %s; min_offset := match end: %s" % (len(conts) == 1, assigned_from_end), fn=sl)
-    ctx.floor(6)
+    # the rewrite-table lookup is attempted at every position that is not inside the previous match
+    finds = [(c, ps) for c, ps in walk(sl.hir) if c.get("k") == "MethodCall" and c.get("method") == "find" and "AhoCorasick" in (c.get("rty") or "")]
+    if not finds:
+        raise AnchorMissing("replace_slow: automaton lookup")
+    for c, ps in finds:
+        loop_body = None
+        for n2, _ in walk(sl.hir):
+            fl = for_loop_parts(n2) if n2.get("k") == "Match" else None
+            if fl and any(x is c for x, _ in walk(fl[2])):
+                loop_body = fl[2]
+        pcs = path_conditions(c["id"], loop_body) if loop_body else None
+        conds = [("" if p else "!") + render(a) for cn, pol in (pcs or []) if isinstance(cn, dict) for a, p in atoms(cn, pol)]
+        ok = pcs is not None and conds == ["!(offset < min_offset)"]
+        ctx.ob("replace_slow|lookup-at-every-position", ok,
+               "the table lookup `%s` is reached under %s (must be only !(offset < min_offset): a key must be tried at every position, whatever "
+               "the character's own normalisation status)" % (render(c)[:50], conds), fn=sl, site=c.get("sp"))
+    ctx.floor(7)
